@@ -475,6 +475,8 @@ func (ip *Interp) stmt(fr *frame, s ast.Stmt) {
 					}
 				} else if w, sg, ok := typeWidth(obj.Type()); ok {
 					fr.env[obj] = &Value{V: Zero(w), Sign: sg}
+				} else if at, ok := obj.Type().Underlying().(*types.Array); ok && isByteArray(obj.Type()) {
+					fr.env[obj] = &Value{B: &Bytes{Name: nm.Name, Cells: map[int]Vec{}, Len: int(at.Len())}}
 				}
 			}
 		}
